@@ -1,9 +1,9 @@
 CHECKS['C14'] = dict(
     engine='E-seq',
     design_ref='DESIGN.md 4 C14',
-    technique='exhaustive enumeration of command sequences x pipe chunkings and of selector forms x term combinations, through the real child-pipe reader, dispatcher, command handlers and RIBs of a three-neighbor reactor under a virtual loop; sequential reference model',
-    text='Full virtual world with three neighbors differing in address, local AS, peer AS and router-id and one API child. (A) every sequence of <= 2 commands (thorough: 3) over 12 commands (valid announces/withdraws to all or one peer, IPv6, out-of-range value, bad mask, missing next hop, unknown verb, selector matching nobody, eor, flush, ping), '
+    technique='exhaustive enumeration of command sequences x pipe chunkings and of selector forms x term combinations, through the real child-pipe reader, dispatcher, command handlers and RIBs of a four-neighbor reactor under a virtual loop; sequential reference model',
+    text='Full virtual world with four neighbors differing in address, local AS, peer AS and router-id (every value of the fourth extends the corresponding value of the first as a string) and one API child. (A) every sequence of <= 2 commands (thorough: 3) over 12 commands (valid announces/withdraws to all or one peer, IPv6, out-of-range value, bad mask, missing next hop, unknown verb, selector matching nobody, eor, flush, ping), '
          'in API v6 and v4 syntax, written to the pipe coalesced, with every single cut (thorough: every pair) and byte by byte; the commands seen by API.process must be the lines written, in order; the reply stream must hold exactly one terminal done/error per command in command order; '
-         'every neighbor Adj-RIB-Out must equal what the accepted commands say and refused commands must change nothing. (B) every selector: 5 address forms x every subset of {local-as, peer-as, router-id} x 3 values, plain, bracket and two-element bracket lists: exactly the neighbors matching every term change.',
+         'every neighbor Adj-RIB-Out must equal what the accepted commands say and refused commands must change nothing. (B) every selector: 7 address forms (one truncated) x every subset of {local-as, peer-as, router-id} x 4 values (one only the beginning of values in use), plain, bracket and two-element bracket lists: exactly the neighbors matching every term change.',
     note='Trusted: virtual loop and pipe plumbing, the reference model in the check. Sessions are not established (RIB effects are read from the real OutgoingRIB objects). Outside: group start/end batches, sync mode, several API processes.',
 )
